@@ -54,6 +54,10 @@ CLAIMS["C17"] = ("must-pass guards on price reads and on activation stores; wrap
     "Static decision of the structural part of the oracle pipeline: the market keeper's valuation API reads the stored price only under found && IsPriceActive and errors otherwise; IsPriceActive becomes true only behind a window-full comparison; after each cursor increment the record is stored only behind a wrap test whose outcomes are index < N or index >= N with reset (so an off-by-one `>` is reported); the window is emptied only together with cursor reset and deactivation; the window sum is not accumulated in a fixed-width integer. Holds for every sample sequence because it is decided on all paths. NOT covered: that the published value equals the integer mean for every sequence; N = 0.",
     "DESIGN.md §3 C17")
 
+CLAIMS["C08"] = ("must-pass comparison / call guards on borrow booking and lend release, totals-vs-custody amount matching, id-list removal idiom rule, stale-read analysis",
+    "Static decision of the structural part: the lend ratio check succeeds only through ratio <= threshold; every function booking a new or larger borrow needs a successful check against the asset's (E)Ltv and the comparison loan <= pool balance; lend withdrawals are bounded by AvailableToBorrow and a lend closes only when its open-borrow id list is nil; each change of the published totals is matched, in the same function, by a pool custody movement or the position-record change of the same amount; id-list removals keep the remaining ids; no borrow/lend copy read before interest accrual is used afterwards. NOT covered: the totals identity as numbers, interest accrual arithmetic, cross-pool bridged-asset accounting.",
+    "DESIGN.md §3 C08")
+
 NOT_APPLICABLE = {
     "C18": "purely numeric relations between evaluations of accrual/rate functions (non-negativity, monotonicity, sub-additivity, continuity; one path through float64 math.Pow); no guard, pairing, provenance or ordering is a necessary condition of them, so no sound static argument in reach applies (DESIGN.md §3 C18, §4).",
 }
